@@ -33,6 +33,19 @@
 // This project:
 #include <bxdecay0/utils.h>
 
+#ifdef BXDECAY0_VERIF
+// Verification hook (guarded, add-only): schedule points around the save/disable, integrate and
+// restore steps of the GSL error handler; the callback is null unless a test harness installs one.
+namespace bxdecay0 {
+  namespace verif {
+    void (*gauss_schedule_point)(int) = nullptr;
+  }
+}
+#define BXDECAY0_VERIF_SCHED(k) do { if (::bxdecay0::verif::gauss_schedule_point) ::bxdecay0::verif::gauss_schedule_point(k); } while (0)
+#else
+#define BXDECAY0_VERIF_SCHED(k) do {} while (0)
+#endif
+
 namespace bxdecay0 {
 
   double decay0_gauss(func_type f_, double min_, double max_, double epsrel_, void * params_)
@@ -51,7 +64,9 @@ namespace bxdecay0 {
     epsabs                       = 0.0;
     int count                    = 0;
     int status                   = 0;
+    BXDECAY0_VERIF_SCHED(0);
     gsl_error_handler_t * gsl_eh = gsl_set_error_handler_off();
+    BXDECAY0_VERIF_SCHED(1);
     while (true) {
       status = gsl_integration_qng(&F, min_, max_, epsabs, epsrel, &result, &abserr, &neval);
       /// TRACE
@@ -85,7 +100,9 @@ namespace bxdecay0 {
       }
       /// TRACE if (trace) std::cerr << "[trace] bxdecay0::decay0_gauss: GSL_ETOL = " << "retrying..." << std::endl;
     }
+    BXDECAY0_VERIF_SCHED(2);
     gsl_set_error_handler(gsl_eh);
+    BXDECAY0_VERIF_SCHED(3);
     if (status != 0) {
       std::ostringstream message;
       message << "bxdecay0::decay0_gauss: "
